@@ -1336,6 +1336,10 @@ func (interp *Interpreter) cfg(root *node, sc *scope, importPath, pkgName string
 				if err != nil {
 					break
 				}
+				if bname == bltnNew && !n.child[1].isType(sc) {
+					err = n.child[1].cfgErrorf("argument to new is not a type")
+					break
+				}
 
 				n.gen = c0.sym.builtin
 				c0.typ = &itype{cat: builtinT, name: bname}
